@@ -663,6 +663,7 @@ func atomicIDs(c *Ctx) {
 		info := f.Pkg.TypesInfo
 		acc := p.fieldAccesses(f, isCounter)
 		var adds []*ast.CallExpr
+		var underLock []fieldAccess
 		for _, a := range acc {
 			nIds++
 			ok := false
@@ -680,6 +681,17 @@ func atomicIDs(c *Ctx) {
 				}
 			}
 			fn := p.FieldName(a.fv)
+			if !ok && a.node != nil {
+				// the counter kept under a mutex of its owner instead: the access is
+				// inside a region in which some mutex is certainly held
+				if held := p.MustHeldAt(f, a.node); len(held) > 0 {
+					if _, isPlain := a.fv.Type().Underlying().(*types.Basic); isPlain {
+						underLock = append(underLock, a)
+						c.R.Hold("R-GUARD/atomic", p.Pos(a.sel), f.Name, fn+" via sync/atomic", "accessed with {"+held.names(p)+"} held (a counter under a mutex instead of an atomic)", true)
+						continue
+					}
+				}
+			}
 			if ok {
 				c.R.Hold("R-GUARD/atomic", p.Pos(a.sel), f.Name, fn+" via sync/atomic", "atomic add, no other access", true)
 			} else {
@@ -714,6 +726,63 @@ func atomicIDs(c *Ctx) {
 			return true
 		})
 		_ = info
+		if !(okRet && nRet > 0 && len(adds) == 1) && len(adds) == 0 && len(underLock) == len(acc) && len(acc) >= 2 {
+			// mutex form: one increment of the counter, and every return yields the
+			// counter itself, read while the lock taken before the increment is still held
+			g := p.Graph(f)
+			var incN *Node
+			nInc := 0
+			for _, a := range underLock {
+				if a.write {
+					nInc++
+					incN = a.node
+				}
+			}
+			okMu := nInc == 1 && incN != nil
+			nRet2 := 0
+			walkNoLit(f.Body, func(x ast.Node) bool {
+				rs, isR := x.(*ast.ReturnStmt)
+				if !isR || len(rs.Results) != 1 {
+					return true
+				}
+				nRet2++
+				fv := SelField(info, ast.Unparen(rs.Results[0]))
+				rn := g.NodeOf(rs)
+				if fv == nil || !isCounter(fv) || rn == nil || incN == nil || !g.Dominates(incN, rn) {
+					okMu = false
+					return true
+				}
+				heldInc := p.MustHeldAt(f, incN)
+				for x := range g.ReachAfter(incN, func(y *Node) bool { return y == rn }, nil) {
+					if x.Ast == nil || !reachable(g, x, rn) {
+						continue
+					}
+					common := false
+					for lk := range p.MustHeldAt(f, x) {
+						if heldInc[lk] {
+							common = true
+						}
+					}
+					if !common {
+						okMu = false
+					}
+				}
+				common := false
+				for lk := range p.MustHeldAt(f, rn) {
+					if heldInc[lk] {
+						common = true
+					}
+				}
+				if !common {
+					okMu = false
+				}
+				return true
+			})
+			if okMu && nRet2 > 0 {
+				c.R.Hold("R-GUARD/atomic", p.Pos(f.Node()), f.Name, "returns its own increment", "the counter is incremented once and read back for the result within one critical section", true)
+				continue
+			}
+		}
 		if okRet && nRet > 0 && len(adds) == 1 {
 			c.R.Hold("R-GUARD/atomic", p.Pos(f.Node()), f.Name, "returns its own increment", "every return yields the result of the single atomic add", true)
 		} else {
